@@ -1,2 +1,5 @@
 import KoalaVerif.Model.All
 import KoalaVerif.Props.C01
+import KoalaVerif.Props.C02
+import KoalaVerif.Props.C04
+import KoalaVerif.Props.C05
